@@ -119,18 +119,18 @@ CHECKS = {
         technique="Coq proof (total decision function with explicit Crash/OsError constructors proved unreachable; consistency by case analysis over the port search) + exhaustive cross-product correspondence"),
 
     "C04": dict(
-        text=("41 theorems (Props/C04.v). Proved for every initial kernel state (foreign rules, other instances), every plan, every cut and every "
+        text=("56 theorems (Props/C04.v). Proved for every initial kernel state (foreign rules, other instances), every plan, every cut and every "
               "fault set (nat/nft/tproxy): everything not named for the session's ports is unchanged and in order at every intermediate state; a cut "
               "before GO issues no command; once no own object remains the final state is exactly the initial one; the chain-listing parse (decode as ASCII with errors='replace', split at line feeds, startswith) is exact membership for tables whose foreign rules and chain names carry ARBITRARY bytes without line feed (c04_chain_exists_exact, c04_chain_exists_bytes_exact; with a line feed in a foreign comment it can be forged: c04_listing_lf_refuted, an observation) — i.e. exact "
               "membership (sshuttle-1230 vs sshuttle-12300). The clause 'every exit path: nothing own remains and a later session can start, for every k-th failing "
               "command and every cut' is PROVED IN GENERAL for nat without owner match, tproxy (repaired) and nft (c04_nat_all_exits, c04_tproxy_all_exits, c04_nft_all_exits: every plan body, every clean start state with foreign rules/chains/other instances, "
               "every failing command index, every cut; abstract own-object state + simulation, Proofs/FwLife_gen_*.v); for nat with --user/--group it is proved in general too (c04_all_exits_full: every exit except a failing tear-down `-t mangle -D OUTPUT … MARK`, which is known finding F41). "
               "pf: the fault-free session is the identity on module, enable state, Darwin tokens, anchors and (on FreeBSD, or without `set skip on lo`) the main ruleset, for every flavour, configuration and cut (c04_pf_identity; the `pfctl -s all` status parse is exact); with `set skip on lo` OpenBSD/Darwin replace the main ruleset and never restore it "
-              "(c04_pf_identity_full_refuted; known finding F43); pf exits with failing commands are covered by the harness only. Logging is total: helpers.log returns for every OSError/ValueError raised by its streams, and then the session with all its log points "
+              "(c04_pf_identity_full_refuted; known finding F43 — now an exact equivalence f43_hits); pf ALL EXITS are proved in general for every flavour, plan, cut, start state and every SET of failing pfctl/kldload commands (Proofs/FwLife_gen_pf_faults.v): c04_pf_all_exits (no failed `pfctl -d`/`-X` in the run: module, enable state, tokens, foreign anchors exactly as before, own anchor content left only by its own failed flush), c04_pf_every_exit (after EVERY exit: foreign anchors, module, iptables/nft untouched, a pf that was enabled is never disabled, foreign references never released, both restores run), c04_pf_restartable (a later session removes left-over anchor content); the excluded class is known finding F150 (a failing `pfctl -d`/`-X` itself; c04_pf_disable_fault_refuted, c04_pf_release_fault_refuted); the skipped-disable-after-failed-flush half was a defect, fixed in /repo edce74f (c04_pf_flush_fault_asfound_refuted / _repaired). Logging is total: helpers.log returns for every OSError/ValueError raised by its streams, and then the session with all its log points "
               "(debug1 before every command, log after a failed nonfatal command, every debug call of firewall.main incl. inside finally) issues the same commands and ends in the same state as without logging, for every verbosity and every outcome of every stream operation "
               "(c04_log_total, c04_log_faults_invisible, c04_nat_all_exits_hangup; the narrowed clause of seeded change C04-b is refuted by c04_log_narrow_refuted); as-found tproxy and pf/FreeBSD refuted with witnesses (F9, F17: "
-              "fixed; F41, F42, F43: known findings). The waiting phase is invisible: a read error of any class at the cut, a failing STARTED write, a failing hosts rewrite/restore and a failing DNS-cache flush leave commands, final state and pf context unchanged for every method, cut, fault set and state (c04_wait_phase_invisible, c04_started_failure_is_cut, c04_read_error_is_eof; Model/FwEnv.v); a raising signal handler is harmless for nft (c04_signal_nft_harmless) and was not for nat/tproxy/pf as found (c04_signal_relay_asfound_refuted = F120, fixed). Tied to /repo by running the real firewall.main + real method modules with every external command answered by the extracted kernel model as a co-process, for every cut and every fault index, incl. the REAL setup_daemon + firewall.main in a forked child receiving real SIGHUP/SIGINT/SIGTERM at every phase (harness/props/c04_sig.py), under a logging environment (verbosity 0/1/2 x k-th stderr/stdout operation raising OSError(EIO)/BrokenPipeError/ValueError/..., once or from then on); real helpers.log vs the model's log_call for every exception class and position; fail-closed ast check of its except clauses."),
-        note="modelled not verified: iptables/nft/pfctl command semantics (DESIGN Appendix B; not validated against the real kernel in this check), SIGKILL/SIGTERM modelled as a dialogue cut. The all-exits clause is general for every iptables/nft method (nat with and without owner match, tproxy, nft); pf: general fault-free identity theorem, exits with failing commands by the harness only.",
+              "fixed; F41, F42, F43, F150: known findings). The waiting phase is invisible: a read error of any class at the cut, a failing STARTED write, a failing hosts rewrite/restore and a failing DNS-cache flush leave commands, final state and pf context unchanged for every method, cut, fault set and state (c04_wait_phase_invisible, c04_started_failure_is_cut, c04_read_error_is_eof; Model/FwEnv.v); a raising signal handler is harmless for nft (c04_signal_nft_harmless) and was not for nat/tproxy/pf as found (c04_signal_relay_asfound_refuted = F120, fixed). Tied to /repo by running the real firewall.main + real method modules with every external command answered by the extracted kernel model as a co-process, for every cut and every fault index, incl. the REAL setup_daemon + firewall.main in a forked child receiving real SIGHUP/SIGINT/SIGTERM at every phase (harness/props/c04_sig.py), under a logging environment (verbosity 0/1/2 x k-th stderr/stdout operation raising OSError(EIO)/BrokenPipeError/ValueError/..., once or from then on); real helpers.log vs the model's log_call for every exception class and position; fail-closed ast check of its except clauses."),
+        note="modelled not verified: iptables/nft/pfctl command semantics (DESIGN Appendix B; not validated against the real kernel in this check), SIGKILL/SIGTERM modelled as a dialogue cut. The all-exits clause is general for every iptables/nft method (nat with and without owner match, tproxy, nft); pf: general all-exits theorem over every set of failing commands; not covered: ioctl errors (an uncaught OSError outside the fault model), partial effects of a failing command, intermediate-state invariants for pf.",
         design="DESIGN.md §5 C04",
         technique="Coq proof (frame invariant over all command sequences; general all-exits theorems by simulation to an abstract own-object state; product state with a MARK-rule counter for the owner match; pf anchor-state model) + trace/state correspondence with fault injection at every command index"),
 
@@ -173,13 +173,13 @@ CHECKS = {
         design="DESIGN.md §5 C01",
         technique="Coq proof (inductive pipeline invariant over all micro-step sequences, abstract view transition system + projection lemma) + micro-step-log differential correspondence"),
     "C02": dict(
-        text=("14 theorems (Props/C02.v) on the same model and invariant as C01: if shutdown(SHUT_WR) was issued on the receiving socket and no socket call of that end failed, "
+        text=("24 theorems (Props/C02.v) on the same model and invariant as C01: if shutdown(SHUT_WR) was issued on the receiving socket and no socket call of that end failed, "
               "every byte read at the sending end was delivered first and the sender stopped reading (both directions, every reachable state without stale delivery); no stream "
               "payload follows a flow's EOF on the wire; the two directions are independent (half-close loses nothing); EOF/STOP are never echoed; a flow declared finished has both "
               "sockets shut, both buffers empty and both mux flags set. F22 (data-less half-close before the remote connect completes) is refuted with a kernel-evaluated witness and "
               "listed as a known finding, F20 (lingering handler) likewise observed on the real code. The quiescence sentence is proved in its safety form over quiescent states (Proofs/Stream_quiet.v): no undelivered data anywhere in the pipeline (c02_no_stuck_data); "
               "every remaining handler waits for its socket, for its peer, for a pending connect, or has the F20 shape (c02_quiet_handler_shape); no handler waits for a peer that is gone or that waits for it "
-              "(c02_no_stuck_state_partial); the unrestricted sentence is refuted with the F20 witness (c02_no_stuck_state_refuted). That the loops reach such a state IS proved (c02_eventually_not_stuck, c02_drain_schedule; Proofs/Stream_drain.v: explicit eager schedule with a strictly decreasing variant, no step raises; without the stale-delivery escape clause from every clean state: c02_eventually_not_stuck_clean, c02_drain_schedule_clean). On every quiescent generated run the harness also requires that the two tunnel ends of a flow agree on which directions are closed (the pairing the invariant proves)."),
+              "(c02_no_stuck_state_partial); the unrestricted sentence is refuted with the F20 witness (c02_no_stuck_state_refuted). That the loops reach such a state IS proved (c02_eventually_not_stuck, c02_drain_schedule; Proofs/Stream_drain.v: explicit eager schedule with a strictly decreasing variant, no step raises; without the stale-delivery escape clause from every clean state: c02_eventually_not_stuck_clean, c02_drain_schedule_clean). THE MAIN LOOP (Model/StreamLoop.v, Proofs/Stream_loop.v): runonce as a structured iteration over the same micro-steps (pre_select pass in handler order, select without timeout, callbacks); between iterations every live handler is settled (c02_loop_settled); an end that sleeps in select() has an empty queue and owes nothing (c02_no_lost_wakeup), both ends sleeping is quiescence; the as-found order is refuted (c02_no_lost_wakeup_asfound_refuted = finding F160, fixed in /repo 4d59b70). The driver checks every real iteration literally against the model's iteration and the harness's sleeping flag against sleepsb. On every quiescent generated run the harness also requires that the two tunnel ends of a flow agree on which directions are closed (the pairing the invariant proves)."),
         note="as C01. 'Bounded work' is the variant mu of the drain (a natural number computed from the state); the drain theorem is an existence statement for one eager schedule.",
         design="DESIGN.md §5 C02",
         technique="Coq proof (same inductive invariant; vi_clean / vi_dae clauses) + micro-step-log differential correspondence with close-order scenarios"),
@@ -199,7 +199,7 @@ CHECKS = {
         design="DESIGN.md §5 C08",
         technique="Coq proof (total step function with explicit Crash constructor; case analysis + registration/frame invariants) + fault-injection correspondence"),
     "C09": dict(
-        text=("11 theorems (Props/C09.v): while an end waits for the acknowledgement no batch of callbacks/pre_selects of any flows queues a byte of stream payload, otherwise at most 2048 bytes "
+        text=("12 theorems (Props/C09.v): while an end waits for the acknowledgement no batch of callbacks/pre_selects of any flows queues a byte of stream payload, otherwise at most 2048 bytes "
               "per callback (so one loop iteration overshoots by at most 2048 x callbacks; runonce issues <= 4 per connection); check_fullness queues exactly one PING and pauses; every PING "
               "handled is answered regardless of the pause state; a PONG resumes and resets the budget; with latency control off no end is ever paused, in any run. "
               "'Every such request is eventually answered, so transfers always resume': proved in invariant form (Proofs/Stream_quiet.v) — while an end is paused its probe is OUTSTANDING (the PING 'rttest' is in its queue or on the link, or the PONG is in the peer's queue or on the link back: c09_outstanding, all runs, all I/O); "
